@@ -113,7 +113,13 @@ def c06(ctx):
     sweep = dict(plain, PreOps=True, SmallPool=True)
     out3 = os.path.join(ctx.tmp, "C06_bfs_preops.ndjson")
     ctx.tlc("KyberPairing", cfg(constants=sweep, invariants=["Emit"]), name="C06_gen_bfs_preops", collect=out3)
-    ctx.run_vh("pairing", ["-in", out3, "-bindings", 2 if q else 4, "-max", 0])
+    ctx.run_vh("pairing", ["-in", out3, "-bindings", 1 if q else 4, "-max", 0])
+    # every second step followed by every in-place use of the first pairing result as an accumulator (t1 := t1 - t2 ...):
+    # exhaustive over the reduced pool
+    sweep2 = dict(plain, InPlaceOps=True, SmallPool=True)
+    out4 = os.path.join(ctx.tmp, "C06_bfs_inplace_small.ndjson")
+    ctx.tlc("KyberPairing", cfg(constants=sweep2, invariants=["Emit"]), name="C06_gen_bfs_inplace_small", collect=out4)
+    ctx.run_vh("pairing", ["-in", out4, "-bindings", 2 if q else 4, "-max", 0])
     full = dict(plain, PreOps=True, InPlaceOps=True)
     acc = dict(plain, InPlaceOps=True)
     if not q:
